@@ -17,10 +17,10 @@ ID = "C03"
 TITLE = "descriptor before record, per stream"
 LEVEL = "exploration"
 RULE = (
-    "a fixed set of 9 record makers: an identifier-coincident pair (same name, same 32-bit hash, different fields), a "
+    "a fixed set of 10 record makers: an identifier-coincident pair (same name, same 32-bit hash, different fields), a "
     "same-name/different-fields pair (different hash), a holder whose inner type occurs only nested in a 'record' field, a "
     "holder with a record[] field whose elements are of the coincident types, a grouped record whose member types occur only "
-    "there, a grouped record with members of the same-name pair, a keyword-field type.  Histories: EXHAUSTIVE over all write "
+    "there, a grouped record with members of the same-name pair, a keyword-field type, a grouped record with the same group name and flat field list as another one but other member types.  Histories: EXHAUSTIVE over all write "
     "sequences up to length 4 (quick) / 5 (thorough) over the makers, on a binary stream writer and on a JSON-lines writer, "
     "then random histories of length 20-200 and 2-3 writers open at the same time with interleaved writes.  Oracle per "
     "stream: (binary) the independent reference codec decodes the bytes - every record / nested / grouped identifier must "
@@ -40,8 +40,8 @@ BUDGET_S = {"quick": 200, "thorough": 1200}
 ANCHORS = ["flow.record.packer:RecordPacker.register", "flow.record.packer:RecordPacker.pack_obj", "flow.record.stream:RecordStreamWriter.on_new_descriptor",
            "flow.record.jsonpacker:JsonRecordPacker.register", "flow.record.adapter.jsonfile:JsonfileWriter.packer_on_new_descriptor"]
 
-NMAKERS = 9
-NONTRIVIAL_ALONE = {4, 5, 6, 7}
+NMAKERS = 10
+NONTRIVIAL_ALONE = {4, 5, 6, 7, 9}
 
 
 def makers():
@@ -61,6 +61,8 @@ def makers():
     L = RecordDescriptor("holder/list", [("record[]", "subs"), ("uint16", "n")])
     M1 = RecordDescriptor("member/one", [("string", "m")])
     M2 = RecordDescriptor("member/two", [("uint16", "n")])
+    M1b = RecordDescriptor("member/uno", [("string", "m")])
+    M2b = RecordDescriptor("member/duo", [("uint16", "n")])
     K = RecordDescriptor("kw/type", [("string", "class"), ("varint", "from")])
 
     def mk(d, **kw):
@@ -76,6 +78,8 @@ def makers():
         lambda i: GroupedRecord("grp/only", [mk(M1, m="m%d" % i), mk(M2, n=i % 65536)]),
         lambda i: GroupedRecord("grp/same", [mk(C, a="gc%d" % i), mk(D, a=i, b="gd")]),
         lambda i: K.recordType(**{"class": "k%d" % i, "from": i, "_generated": g}),
+        # same group name and same flat field list as maker 6, but other member types
+        lambda i: GroupedRecord("grp/only", [mk(M1b, m="u%d" % i), mk(M2b, n=(i + 1) % 65536)]),
     ]
 
 
